@@ -72,7 +72,7 @@ def strategy_(draw, tier):
                                              "envelope-decrypt", "cli", "cli-existing-output", "cli-wrong-key", "vmtar-list", "vmtar-extract", "keystore",
                                              "vmtar-modes", "vhdx-abs-parent", "hyperv-dirty", "rw-handles", "envelope-decrypt-big", "cli-big",
                                              "cli-output-dir", "cli-output-evidence-dir", "cli-relative-output", "hyperv-fileobject",
-                                             "vmdk-rw-descriptor-handle", "vmtar-empty", "vmtar-odd-handles", "hdd-backup-descriptor"]),
+                                             "vmdk-rw-descriptor-handle", "vmtar-empty", "vmtar-odd-handles", "hdd-backup-descriptor", "cli-decomposed-name", "qcow2-bad-deflate"]),
                             min_size=2, max_size=10))
         return {"workload": w, "ops": ops, "n": draw(st.integers(0, 1 << 20))}
     mod = importlib.import_module(f"hv.props.{w.lower()}")
@@ -277,6 +277,11 @@ def run_scenario(spec, out):
         allowed = os.path.join(outdir, "out.bin")
         outsub = os.path.join(outdir, "sub")
         os.mkdir(outsub)
+        # the process works from an empty directory of its own: whatever appears there was written "somewhere handy"
+        cwdmon = os.path.join(outdir, "cwd")
+        os.mkdir(cwdmon)
+        start_cwd = os.getcwd()
+        os.chdir(cwdmon)
         opened = []
         with audit.recording(allow={allowed}) as state:
             for op in spec["ops"]:
@@ -322,6 +327,42 @@ def run_scenario(spec, out):
                         with open(allowed, "rb") as f:
                             if f.read() != info["payload_big"]:
                                 raise AssertionError("CLI output differs from the payload (> 4 MiB)")
+                    elif op == "cli-decomposed-name":
+                        # -o names a file whose name is not NFC-normalised; a file with the composed spelling sits next to it
+                        dec = os.path.join(outsub, "re\u0301sume\u0301.bin")
+                        comp = os.path.join(outsub, "r\u00e9sum\u00e9.bin")
+                        with open(comp, "wb") as f:
+                            f.write(b"precious")
+                        sys.argv = ["envelope-decrypt", info["envelope"], "-ks", info["keystore"], "-o", dec]
+                        try:
+                            tool.main()
+                        finally:
+                            sys.argv = old_argv
+                        ok = os.path.exists(dec) and open(dec, "rb").read() == info["payload"] and open(comp, "rb").read() == b"precious"
+                        for pth in (dec, comp):
+                            if os.path.exists(pth):
+                                os.remove(pth)
+                        if not ok:
+                            raise AssertionError("CLI output did not go to the exact (decomposed) name the user gave, or its composed twin was touched")
+                    elif op == "qcow2-bad-deflate":
+                        from dissect.hypervisor.disk.qcow2 import QCow2
+
+                        img = bytearray(open(info["qcow2"], "rb").read())
+                        # damage every compressed cluster's deflate stream (L2 entries with bit 62 set point at them)
+                        import struct as _st
+
+                        for off in range(1 << 12, len(img) - 8, 8):
+                            v = _st.unpack_from(">Q", img, off)[0]
+                            if v >> 62 == 1 and (v & ((1 << 54) - 1)) < len(img):
+                                cpos = v & ((1 << 54) - 1)
+                                img[cpos : cpos + 16] = b"\xff" * 16
+                        q = QCow2(core.track(bytes(img)))
+                        for off in range(0, q.size, 1 << 12):
+                            try:
+                                q.seek(off)
+                                q.read(512)
+                            except Exception:  # noqa: BLE001 - failing to inflate is fine
+                                pass
                     elif op == "hdd-backup-descriptor":
                         for hb in info["hdd-broken"]:
                             try:
@@ -489,7 +530,10 @@ def run_scenario(spec, out):
         if after != before:
             changed = sorted(set(k for k in set(before) | set(after) if before.get(k) != after.get(k)))
             out.fail("mutated|evidence-dir", f"evidence directory changed: {changed[:4]}")
-        extra = sorted(set(os.listdir(outdir)) - {"out.bin", "sub"})
+        left = sorted(os.listdir(cwdmon))
+        if left:
+            out.fail("mutated|working-directory", f"files appeared in the working directory: {left[:4]}")
+        extra = sorted(set(os.listdir(outdir)) - {"out.bin", "sub", "cwd"})
         if "cli-existing-output" in spec["ops"]:
             tmp = allowed + ".tmp"
             if not os.path.exists(tmp) or open(tmp, "rb").read() != b"precious":
@@ -500,6 +544,10 @@ def run_scenario(spec, out):
         return events, opens
     finally:
         sys.argv = old_argv
+        try:
+            os.chdir(start_cwd)
+        except (NameError, OSError):
+            pass
         shutil.rmtree(d, ignore_errors=True)
         shutil.rmtree(outdir, ignore_errors=True)
 
